@@ -149,6 +149,31 @@ def run(chk):
                 chk.ok("C18.scope.total", a, f"{q}: `await {pat}` is inside `with self._timer`")
             else:
                 chk.violation("C18.scope.total", a, K.short(a), "with self._timer:", f"{q}: a stalled read is not covered by the request's timer")
+    # every wait of StreamReader for something the peer has to send is inside the request's timer (not a hand-picked list: all awaits of a
+    # future the producer resolves)
+    srd = repo.cls(STREAMS, "StreamReader")
+    nfw = 0
+    for name, m in srd.methods.items():
+        for a in prog.awaits_in(m.node):
+            v = a.value
+            if not ((isinstance(v, ast.Attribute) and norm.raw(v.value) == "self" and "waiter" in v.attr) or (isinstance(v, ast.Name) and "waiter" in v.id)):
+                continue
+            nfw += 1
+            ws = [w for w in prog.enclosing(a, (ast.With,)) if any(norm.raw(it.context_expr) == "self._timer" for it in w.items)]
+            if ws:
+                chk.ok("C18.scope.total", a, f"StreamReader.{name}: `await {norm.raw(v)}` is inside `with self._timer`")
+            else:
+                chk.violation("C18.scope.total", a, K.short(a), "with self._timer:",
+                              f"StreamReader.{name}() awaits its future bare while every sibling waits under `with self._timer`: with total=0.5 and a body that stalls, readexactly() times out at 0.5 s but {name}() is still waiting seconds later - the total timeout does not bound it")
+    chk.expect_count("C18.scope.total.waiters", nfw, 2, "waits for a producer-resolved future in StreamReader")
+    # a timed-out / failed exchange closes its connection for real: with unsent bytes in the write buffer a graceful close never completes
+    rhc = repo.func(PROTO, "ResponseHandler.close")
+    ab = [c for c in prog.calls_in(rhc.node) if isinstance(c.func, ast.Attribute) and c.func.attr == "abort" and any("get_write_buffer_size" in l.text for cl_ in PC.pc(c, raw=True) for l in cl_)]
+    if ab:
+        chk.ok("C18.close", ab[0], "ResponseHandler.close(): unsent bytes in the write buffer make the close an abort")
+    else:
+        chk.violation("C18.close", rhc, "transport.close()", "if transport.get_write_buffer_size(): transport.abort()",
+                      "ResponseHandler.close() only calls transport.close(), which waits for the write buffer to be flushed: after a sock_read timeout of a POST whose unsent tail (below the 64 KiB high-water mark) sits in the buffer of a peer that never reads, the socket is still open after the timeout and after session.close() - the connector has forgotten it, nothing will ever close it")
     # ---- close --------------------------------------------------------------------------------------------------------------
     chk.include(C06.run, ("C06.closeonerror",), ("C06.closeonerror", "C18.close"))
     for q in ("ClientResponse.close", "ClientResponse.release", "ClientResponse._response_eof"):
@@ -223,9 +248,15 @@ def run(chk):
     rs = K.exprs(rz, "self._reschedule_timeout()")
     sup = K.exprs(rz, "super().resume_reading(resume_parser)")
     wp = norm.fn_defs(rz.node).defs.get("was_paused", [])
-    if rs and sup and len(wp) == 1 and norm.raw(wp[0][1]) == "self._reading_paused" and wp[0][0].lineno < sup[0][0].lineno \
-            and {str(l) for l in PC.units(PC.pc(rs[0][0], raw=True))} == {"(was_paused)"} and rs[0][0].lineno > sup[0][0].lineno:
-        chk.ok("C18.readtimer", rs[0][0], "resume_reading() re-arms the sock_read timer iff reading had been paused (state captured before the base resume, which may pause again)")
+    units_ = {str(l) for l in PC.units(PC.pc(rs[0][0], raw=True))} if rs else set()
+    ALLOWED = {"(was_paused)", "!(self._reading_paused)", "(self._payload is not None)", "!(self._payload is None)", "!(self._payload.is_eof())"}
+    shape = bool(rs and sup and len(wp) == 1 and norm.raw(wp[0][1]) == "self._reading_paused" and wp[0][0].lineno < sup[0][0].lineno
+                 and "(was_paused)" in units_ and units_ <= ALLOWED and rs[0][0].lineno > sup[0][0].lineno)
+    if shape and "!(self._payload.is_eof())" not in units_:
+        chk.violation("C18.readtimer", rs[0][0], "if was_paused: self._reschedule_timeout()", "... and self._payload is not None and not self._payload.is_eof()",
+                      "resuming re-enters the parser, which may complete the response (the buffered tail of a compressed body) and release the connection to the pool; the timer is then re-armed on an idle pooled connection, fires sock_read later and stores SocketTimeoutError on it - the next request that reuses the connection fails at once although the peer is healthy")
+    elif shape:
+        chk.ok("C18.readtimer", rs[0][0], "resume_reading() re-arms the sock_read timer iff reading had been paused (state captured before the base resume, which may pause again) and the response is still incomplete")
     else:
         chk.violation("C18.readtimer", rz, "was_paused = self._reading_paused; super().resume_reading(...); if was_paused: self._reschedule_timeout()", "",
                       "the re-arm decision depends on state that a nested pause (decoder refilling the buffer during resume) can overwrite: after the final resume the read timer is never armed and a stalled peer hangs the read")
